@@ -30,7 +30,7 @@ sys.path.insert(0, C.VERIF)
 from gen.progs import gen_program            # noqa: E402
 from gen.frag import gen_frag_program        # noqa: E402
 from gen.hist02 import (gen_history, gen_model_history, gen_k02a_pattern, gen_k02b_pattern,   # noqa: E402
-                        gen_module_program, gen_jitops_program)
+                        gen_module_program, gen_jitops_program, gen_manyparams_program, gen_sendtwice_program)
 
 PID = "C02"
 META = {
@@ -145,6 +145,11 @@ def run_chunk(items, idxs, env, results, timeout=600):
                 break
         else:
             return
+        if rc == 86 and k > 0:
+            # the child stopped on purpose after a program in which the engine panicked: the records of the first k
+            # programs are complete, the rest runs in a fresh process
+            todo = todo[k:]
+            continue
         i = todo[k]
         why = "timeout" if rc == 124 else "exit %d: %s" % (rc, " ".join((err or "").strip().splitlines()[-1:])[:160])
         got = recs[k] if k < len(recs) else []
@@ -320,6 +325,8 @@ CLASS_NAMES = {
     "K02i": "local_read_as_operand_then_moved_by_later_operand_in_native_code",
     "K02j": "panic_inside_native_frame_aborts_instead_of_unwinding",
     "K02k": "null_test_on_empty_vector",
+    "K02l": "computed_operator_with_nine_or_more_operands_in_native_code",
+    "K02m": "list_of_nine_or_more_operands_nested_as_later_operand_in_native_code",
 }
 CLASS_ALIASES = {"K02a": ("global_defined_and_read_in_one_unit_assigned_later",)}   # K06a: the same defect seen by C06
 IDX_INLINE_RECURSIVE = SWITCH_NAMES.index("STEEL_INLINE_RECURSIVE")
@@ -404,6 +411,38 @@ def operand_moved_later(text):
                 for b in app[i + 1:]:
                     if _contains(b, lambda y, a=a: isinstance(y, list) and len(y) >= 3 and y[0] == "if" and a in y[2:4]):
                         return True
+    return False
+
+
+def computed_call_many_operands(text):
+    """K02l: an application whose operator is itself an application (a computed procedure value) or which passes
+    9 or more operands to a variable that is a parameter of the enclosing procedure - approximated by: any
+    application with >= 9 operands whose operator is a list, or a symbol bound as a parameter somewhere in the text."""
+    forms = read_sexps(text)
+    params = set()
+
+    def collect(x):
+        if isinstance(x, list) and x:
+            if x[0] == "define" and len(x) > 1 and isinstance(x[1], list):
+                params.update(p for p in x[1][1:] if isinstance(p, str))
+            if x[0] == "lambda" and len(x) > 1 and isinstance(x[1], list):
+                params.update(p for p in x[1] if isinstance(p, str))
+            for y in x:
+                collect(y)
+
+    collect(forms)
+    for app in _applications(forms):
+        if len(app) - 1 >= 9 and (isinstance(app[0], list) or app[0] in params):
+            return True
+    return False
+
+
+def long_list_as_later_operand(text):
+    """K02m: an application has, after its first operand, an operand of the form (list e1 ... en) with n >= 9."""
+    for app in _applications(read_sexps(text)):
+        for b in app[2:]:
+            if isinstance(b, list) and b and b[0] == "list" and len(b) - 1 >= 9:
+                return True
     return False
 
 
@@ -615,6 +654,13 @@ def process(ctx, batch, configs, values, stats, known, recs=None):
                     # the engine panics in every configuration (that is C07's subject); under the interpreter the
                     # host can catch the unwind, inside a native frame the panic cannot unwind and the process aborts
                     attributed = "K02j"
+            if attributed is None and "K02l" in known and jit_split and computed_call_many_operands(item_text(batch, i)):
+                r_off = recs[off[0]][i][j] if recs[off[0]][i] else None
+                if r_off is not None and all((recs[n][i][j] if recs[n][i] else None) is not None and
+                                             recs[n][i][j]["res"][0] in ("panic", "crash") for n in on):
+                    attributed = "K02l"
+            if attributed is None and "K02m" in known and jit_split and long_list_as_later_operand(item_text(batch, i)):
+                attributed = "K02m"
             if attributed is None and "K02h" in known and only_dump_differs(ra, rb):
                 attributed = "K02h"
             if attributed is None and "K02f" in known and assigned_parameter_called(pieces[: j + 1]) and \
@@ -625,7 +671,7 @@ def process(ctx, batch, configs, values, stats, known, recs=None):
                 attributed = "K02g"
             if attributed is None and jit_split and "K02i" in known and operand_moved_later(item_text(batch, i)):
                 attributed = "K02i"
-            if attributed is None and jit_split and "K02k" in known and "(vector" in item_text(batch, i) and \
+            if attributed is None and jit_split and "K02k" in known and "(vector)" in item_text(batch, i) and \
                     re.search(r"null\?|foldl|foldr|reduce|filter|\(map ", item_text(batch, i)):
                 # an (empty) vector reaches a (if (null? l) ...) test, directly or inside a list-library procedure
                 attributed = "K02k"
@@ -964,6 +1010,26 @@ def run(ctx):
         stats["features"]["jit-operand-types-as-module"] = stats["features"].get("jit-operand-types-as-module", 0) + 1
         b.add(["(require \"%s\")" % path], meta=text, cls={"text": text})
     batches.append(b)
+
+    # 4e. procedures with 5-9 parameters used several times in one expression (plain operand first, last use inside
+    #     an inner call), called through apply / map / as values; and the same compiled procedure serialised or
+    #     handed to native threads more than once.  Each at top level and as a module.
+    for label, gen, n in (("manyparams", gen_manyparams_program, 10 if q else 150),
+                          ("sendtwice", gen_sendtwice_program, 5 if q else 60)):
+        b = Batch(label)
+        b.nospec = True
+        bm = Batch(label + "-as-module")
+        bm.nospec = True
+        for _ in range(n):
+            h = gen(rng)
+            stats["features"][label] = stats["features"].get(label, 0) + 1
+            b.add(h["pieces"], cls={"text": ""})
+            path = os.path.join(pm_dir, "%s-%s.scm" % (label, hashlib.sha1(h["module"].encode()).hexdigest()[:12]))
+            with open(path, "w") as fh:
+                fh.write(h["module"])
+            bm.add(["(require \"%s\")" % path], meta=h["module"], cls={"text": h["module"]})
+        batches.append(b)
+        batches.append(bm)
 
     # 5. model histories (lowered-core): the Lean model predicts the value under every configuration inside the guard
     batches.append(model_hist_batch(rng, 24 if q else 160, stats, ctx))
